@@ -18,7 +18,7 @@ AddEv(op) == phase = "ev" /\ Size < MaxTotal /\ p' = [p EXCEPT !.ev = Append(p.e
 ToHooks == phase = "ev" /\ phase' = "hooks" /\ UNCHANGED p
 AddHook(h) == phase = "hooks" /\ Len(p.hooks) < MaxHooks /\ p' = [p EXCEPT !.hooks = Append(p.hooks, h)] /\ UNCHANGED phase
 Finish == phase = "hooks" /\ phase' = "done" /\ UNCHANGED p
-Next == (\E op \in OpSet : AddCtx(op) \/ AddEv(op)) \/ ToEv \/ ToHooks \/ (\E h \in {"field", "noop", "discard"} : AddHook(h)) \/ Finish
+Next == (\E op \in OpSet : AddCtx(op) \/ AddEv(op)) \/ ToEv \/ ToHooks \/ (\E h \in {"field", "noop", "discard", "ts", "caller"} : AddHook(h)) \/ Finish
 Spec == Init /\ [][Next]_vars
 
 \* the model's output is one well-formed object on one line (C01 at the design level)
